@@ -1,5 +1,300 @@
-/- C11 — property theorems only. -/
+/-
+C11 — the output grid computed for another CRS encloses the source.
+
+Property theorems only.  `computeOutput` is the model of `compute_output_geobox` for a `GeoBox`
+source (Model/C11.lean); everything pyproj computes (`Captured`: footprint bbox in the destination
+CRS, CRS / unit equality, source resolution, centre-pixel fit) is universally quantified.
+-/
 import OdcGeo.Model.C11
+import OdcGeo.Lemmas.C11
+import Mathlib.Tactic.Linarith
+import Mathlib.Tactic.Ring
+import Mathlib.Tactic.Positivity
+
 namespace OdcGeo.C11
+open OdcGeo
+
+/-- world extent of an output grid on each axis -/
+def Grid.xLo (g : Grid) : Rat := gridLo g.A.c g.A.a g.nx
+def Grid.xHi (g : Grid) : Rat := gridHi g.A.c g.A.a g.nx
+def Grid.yLo (g : Grid) : Rat := gridLo g.A.f g.A.e g.ny
+def Grid.yHi (g : Grid) : Rat := gridHi g.A.f g.A.e g.ny
+
+theorem fromBboxRes_ok (b : BBox) (rx ry : Rat) (snap : Option (Rat × Rat)) (tol : Rat) (g : Grid)
+    (h : fromBboxRes b rx ry snap tol = .ok g) :
+    ∃ offx nx offy ny, snapGrid b.left b.right rx (snap.map (·.1)) tol = .ok (offx, nx) ∧
+      snapGrid b.bottom b.top ry (snap.map (·.2)) tol = .ok (offy, ny) ∧
+      g = ⟨ny, nx, Aff.translation offx offy * Aff.scale rx ry⟩ := by
+  unfold fromBboxRes at h
+  simp only [bind, Except.bind, pure, Except.pure] at h
+  split at h
+  · cases h
+  · rename_i p hp
+    obtain ⟨offx, nx⟩ := p
+    simp only at h
+    split at h
+    · cases h
+    · rename_i q hq
+      obtain ⟨offy, ny⟩ := q
+      simp only [Except.ok.injEq] at h
+      exact ⟨offx, nx, offy, ny, hp, hq, h.symm⟩
+
+theorem fromBbox_none_some (b : BBox) (rx ry : Rat) (anchor : Anchor) (tight : Bool) (tol : Rat) :
+    fromBbox b .none (some (rx, ry)) anchor tight tol = fromBboxRes b rx ry (snapOf anchor tight) tol := by
+  simp [fromBbox]
+
+/-- resolution-driven requests end in the resolution branch of `from_bbox` with the chosen pixel size -/
+theorem out_res_form (c : Captured) (mode : ResMode) (tight : Bool) (anchor : Anchor) (tol : Rat)
+    (rnd : Rounding) (g : Grid) (h : computeOutput c mode .none tight anchor tol rnd = .ok (.grid g)) :
+    ∃ rx ry, chooseRes c mode .none rnd = .ok (some (rx, ry)) ∧
+      fromBboxRes c.bbox rx ry (snapOf anchor tight) tol = .ok g := by
+  unfold computeOutput at h
+  split at h
+  · cases h
+  · split at h
+    · cases h
+    · rename_i res hres
+      cases res with
+      | none =>
+        simp [fromBbox, Except.map] at h
+      | some r =>
+        obtain ⟨rx, ry⟩ := r
+        rw [fromBbox_none_some] at h
+        refine ⟨rx, ry, hres, ?_⟩
+        cases hf : fromBboxRes c.bbox rx ry (snapOf anchor tight) tol with
+        | error e => simp [hf, Except.map] at h
+        | ok g' =>
+          simp only [hf, Except.map, Except.ok.injEq, Out.grid.injEq] at h
+          rw [h]
+
+/-- **out_same_crs_identity** — asking for the source's own CRS with default options
+(`resolution` auto or same, no shape, anchor "default"; any `tight`/`tol`/rounding) returns the
+source GeoBox itself. -/
+theorem out_same_crs_identity (c : Captured) (mode : ResMode) (tight : Bool) (tol : Rat) (rnd : Rounding)
+    (hc : c.sameCrs = true) (hm : mode = .auto ∨ mode = .same) :
+    computeOutput c mode .none tight .dflt tol rnd = .ok .source := by
+  unfold computeOutput
+  simp [hc, hm]
+
+/-- **out_axis_aligned** — every grid computed for a resolution-driven request is axis-aligned
+(pure scale + translation) with exactly the chosen pixel size. -/
+theorem out_axis_aligned (c : Captured) (mode : ResMode) (tight : Bool) (anchor : Anchor) (tol : Rat)
+    (rnd : Rounding) (g : Grid) (h : computeOutput c mode .none tight anchor tol rnd = .ok (.grid g)) :
+    g.A.b = 0 ∧ g.A.d = 0 ∧ ∃ rx ry, chooseRes c mode .none rnd = .ok (some (rx, ry)) ∧ g.A.a = rx ∧ g.A.e = ry := by
+  obtain ⟨rx, ry, hres, hf⟩ := out_res_form c mode tight anchor tol rnd g h
+  obtain ⟨offx, nx, offy, ny, _, _, hg⟩ := fromBboxRes_ok _ _ _ _ _ _ hf
+  subst hg
+  refine ⟨by simp [Aff.mul_def, Aff.mul, Aff.translation, Aff.scale],
+    by simp [Aff.mul_def, Aff.mul, Aff.translation, Aff.scale], rx, ry, hres, ?_, ?_⟩ <;>
+  simp [Aff.mul_def, Aff.mul, Aff.translation, Aff.scale]
+
+/-- **out_contains_bbox_up_to_tol** — the output grid contains the bounding box of the projected
+(buffered, densified) footprint up to `tol` of an output pixel on every side, and has at least one
+pixel on each axis; for every mode, anchor, `tight`, sign of the pixel size. -/
+theorem out_contains_bbox_up_to_tol (c : Captured) (mode : ResMode) (tight : Bool) (anchor : Anchor) (tol : Rat)
+    (rnd : Rounding) (g : Grid) (ht : 0 ≤ tol) (hbx : c.bbox.left ≤ c.bbox.right) (hby : c.bbox.bottom ≤ c.bbox.top)
+    (h : computeOutput c mode .none tight anchor tol rnd = .ok (.grid g)) :
+    g.xLo ≤ c.bbox.left + tol * rabs g.A.a ∧ c.bbox.right - tol * rabs g.A.a ≤ g.xHi ∧
+    g.yLo ≤ c.bbox.bottom + tol * rabs g.A.e ∧ c.bbox.top - tol * rabs g.A.e ≤ g.yHi ∧
+    1 ≤ g.nx ∧ 1 ≤ g.ny := by
+  obtain ⟨rx, ry, _, hf⟩ := out_res_form c mode tight anchor tol rnd g h
+  obtain ⟨offx, nx, offy, ny, hx, hy, hg⟩ := fromBboxRes_ok _ _ _ _ _ _ hf
+  subst hg
+  obtain ⟨x1, x2, x3, _⟩ := snapGrid_spec _ _ _ _ _ _ _ ht hbx hx
+  obtain ⟨y1, y2, y3, _⟩ := snapGrid_spec _ _ _ _ _ _ _ ht hby hy
+  simp only [Grid.xLo, Grid.xHi, Grid.yLo, Grid.yHi, Aff.mul_def, Aff.mul, Aff.translation, Aff.scale]
+  simp only [one_mul, zero_mul, mul_zero, add_zero, zero_add]
+  exact ⟨x1, x2, y1, y2, x3, y3⟩
+
+/-- **out_alignment** — unless `tight` / floating, the lower pixel edges of the output are
+`(k + o)·|pixel size|` for integers `k`, where `o` is the requested anchor fraction per axis:
+`0` for the default / edge anchor (edges are multiples of the pixel size from the CRS origin),
+`½` for centre, the given fractions for an explicit anchor. -/
+theorem out_alignment (c : Captured) (mode : ResMode) (anchor : Anchor) (tol : Rat)
+    (rnd : Rounding) (g : Grid) (ox oy : Rat) (ht : 0 ≤ tol) (hbx : c.bbox.left ≤ c.bbox.right)
+    (hby : c.bbox.bottom ≤ c.bbox.top) (hs : snapOf anchor false = some (ox, oy))
+    (h : computeOutput c mode .none false anchor tol rnd = .ok (.grid g)) :
+    (∃ k : Int, g.xLo = ((k : Rat) + ox) * rabs g.A.a) ∧ (∃ k : Int, g.yLo = ((k : Rat) + oy) * rabs g.A.e) := by
+  obtain ⟨rx, ry, _, hf⟩ := out_res_form c mode false anchor tol rnd g h
+  obtain ⟨offx, nx, offy, ny, hx, hy, hg⟩ := fromBboxRes_ok _ _ _ _ _ _ hf
+  subst hg
+  rw [hs] at hx hy
+  obtain ⟨_, _, _, x4⟩ := snapGrid_spec _ _ _ _ _ _ _ ht hbx hx
+  obtain ⟨_, _, _, y4⟩ := snapGrid_spec _ _ _ _ _ _ _ ht hby hy
+  simp only [Grid.xLo, Grid.yLo, Aff.mul_def, Aff.mul, Aff.translation, Aff.scale]
+  simp only [one_mul, zero_mul, mul_zero, add_zero, zero_add]
+  exact ⟨x4 ox rfl, y4 oy rfl⟩
+
+theorem snapOf_default : snapOf .dflt false = some (0, 0) := rfl
+theorem snapOf_center : snapOf .center false = some (1 / 2, 1 / 2) := rfl
+
+/-- **out_same_units_resolution** — with `resolution="auto"` and equal CRS units the output pixel
+size is the source resolution (sign included); same for `resolution="same"` whatever the units. -/
+theorem out_same_units_resolution (c : Captured) (mode : ResMode) (tight : Bool) (anchor : Anchor) (tol : Rat)
+    (rnd : Rounding) (g : Grid) (hm : (mode = .auto ∧ c.sameUnits = true) ∨ mode = .same)
+    (h : computeOutput c mode .none tight anchor tol rnd = .ok (.grid g)) :
+    g.A.a = c.srcRes.1 ∧ g.A.e = c.srcRes.2 := by
+  obtain ⟨_, _, rx, ry, hres, ha, he⟩ := out_axis_aligned c mode tight anchor tol rnd g h
+  rcases hm with ⟨rfl, hu⟩ | rfl
+  · simp [chooseRes, hu] at hres
+    rw [ha, he, hres]
+    exact ⟨rfl, rfl⟩
+  · simp [chooseRes] at hres
+    rw [ha, he, hres]
+    exact ⟨rfl, rfl⟩
+
+/-- **out_explicit_resolution** — an explicit resolution is used as given. -/
+theorem out_explicit_resolution (c : Captured) (rx ry : Rat) (tight : Bool) (anchor : Anchor) (tol : Rat)
+    (rnd : Rounding) (g : Grid)
+    (h : computeOutput c (.explicit rx ry) .none tight anchor tol rnd = .ok (.grid g)) :
+    g.A.a = rx ∧ g.A.e = ry := by
+  obtain ⟨_, _, rx', ry', hres, ha, he⟩ := out_axis_aligned c _ tight anchor tol rnd g h
+  simp [chooseRes] at hres
+  rw [ha, he, ← hres.1, ← hres.2]
+  exact ⟨rfl, rfl⟩
+
+/-- **out_resolution_positive_square** — `resolution="fit"` (and `"auto"` across different units),
+without custom rounding: the output pixels are square, positive in x and inverted in y; the size is
+the average of the two centre-pixel estimates. -/
+theorem out_resolution_positive_square (c : Captured) (mode : ResMode) (tight : Bool) (anchor : Anchor) (tol : Rat)
+    (g : Grid) (hm : mode = .fit ∨ (mode = .auto ∧ c.sameUnits = false))
+    (hcp : c.cpRes.1 ≠ 0 ∨ c.cpRes.2 ≠ 0)
+    (h : computeOutput c mode .none tight anchor tol .none = .ok (.grid g)) :
+    0 < g.A.a ∧ g.A.e = -g.A.a ∧
+      g.A.a = (rabs (c.cpRes.1 / c.fitScale.1) + rabs (c.cpRes.2 / c.fitScale.2)) / 2 := by
+  obtain ⟨_, _, rx, ry, hres, ha, he⟩ := out_axis_aligned c mode tight anchor tol .none g h
+  have hfit : chooseRes.fit c .none = .ok (some (rx, ry)) := by
+    rcases hm with rfl | ⟨rfl, hu⟩
+    · simpa [chooseRes] using hres
+    · simpa [chooseRes, hu] using hres
+  unfold chooseRes.fit at hfit
+  split at hfit
+  · cases hfit
+  · rename_i hz
+    have hz' : c.fitScale.1 ≠ 0 ∧ c.fitScale.2 ≠ 0 := by
+      constructor
+      · intro h0; exact hz (Or.inl h0)
+      · intro h0; exact hz (Or.inr h0)
+    simp only [Except.ok.injEq, Option.some.injEq, Prod.mk.injEq] at hfit
+    obtain ⟨h1, h2⟩ := hfit
+    rw [ha, he, ← h1, ← h2]
+    refine ⟨?_, rfl, rfl⟩
+    have n1 := rabs_nonneg (c.cpRes.1 / c.fitScale.1)
+    have n2 := rabs_nonneg (c.cpRes.2 / c.fitScale.2)
+    rcases hcp with hne | hne
+    · have := rabs_pos (div_ne_zero hne hz'.1)
+      linarith
+    · have := rabs_pos (div_ne_zero hne hz'.2)
+      linarith
+
+/-- **out_shape_request** (exact shape) — an explicit `(ny, nx)` request yields exactly that shape,
+an axis-aligned grid with pixel size `span / n`, whatever `resolution=` says.
+(`_partial`: the "< 1 pixel displacement" half is checked by the oracle, not proved here.) -/
+theorem out_shape_request_partial (c : Captured) (mode : ResMode) (ny nx : Int) (tight : Bool) (anchor : Anchor)
+    (tol : Rat) (rnd : Rounding) (g : Grid)
+    (h : computeOutput c mode (.exact ny nx) tight anchor tol rnd = .ok (.grid g)) :
+    g.ny = ny ∧ g.nx = nx ∧ g.A.b = 0 ∧ g.A.d = 0 ∧
+      g.A.a = (c.bbox.right - c.bbox.left) / nx ∧ g.A.e = -(c.bbox.top - c.bbox.bottom) / ny := by
+  unfold computeOutput at h
+  split at h
+  · rename_i hh
+    simp at hh
+  · simp only [chooseRes, ne_eq, reduceCtorEq, not_false_eq_true, if_true] at h
+    simp only [fromBbox] at h
+    split at h
+    · simp [Except.map] at h
+    · cases hs : snapOf anchor tight with
+      | none =>
+        simp only [hs, Except.map, Except.ok.injEq, Out.grid.injEq] at h
+        subst h
+        simp [Aff.mul_def, Aff.mul, Aff.translation, Aff.scale]
+      | some s =>
+        obtain ⟨sx, sy⟩ := s
+        simp only [hs] at h
+        split at h
+        · simp only [Except.map, Except.ok.injEq, Out.grid.injEq] at h
+          subst h
+          simp [Aff.mul_def, Aff.mul, Aff.translation, Aff.scale]
+        · simp [Except.map] at h
+        · simp [Except.map] at h
+
+/-- **int_shape_plus_one_cex** — the full statement "a single-integer shape request yields that
+longest side" is false for snapping anchors: the pixel size is derived first (`span / n`) and the
+edges are then snapped outwards.  Witness: bbox `[1/2, 17/2] × [0, 4]`, `shape=8`, default anchor
+→ 5 × 9.  (Known finding `int-shape-longest-side-plus-one`; exact with `tight=True`.) -/
+theorem int_shape_plus_one_cex :
+    fromBbox ⟨1 / 2, 0, 17 / 2, 4⟩ (.side 8) none .dflt false (1 / 100)
+      = .ok ⟨4, 9, ⟨1, 0, 0, 0, -1, 4⟩⟩ ∧
+    fromBbox ⟨1 / 2, 0, 17 / 2, 4⟩ (.side 8) none .dflt true (1 / 100)
+      = .ok ⟨4, 8, ⟨1, 0, 1 / 2, 0, -1, 4⟩⟩ := by
+  constructor <;> decide +kernel
+
+/-- **out_encloses_every_pixel_partial** — if the bounding box of the buffered, densified footprint
+contains the projected position `p` of a source pixel (the hypothesis about projection curvature
+that is sampled, not proved), then `p` lies inside the output grid up to `tol` of an output pixel. -/
+theorem out_encloses_every_pixel_partial (c : Captured) (mode : ResMode) (tight : Bool) (anchor : Anchor)
+    (tol : Rat) (rnd : Rounding) (g : Grid) (p : Rat × Rat) (ht : 0 ≤ tol)
+    (hin : c.bbox.left ≤ p.1 ∧ p.1 ≤ c.bbox.right ∧ c.bbox.bottom ≤ p.2 ∧ p.2 ≤ c.bbox.top)
+    (h : computeOutput c mode .none tight anchor tol rnd = .ok (.grid g)) :
+    g.xLo - tol * rabs g.A.a ≤ p.1 ∧ p.1 ≤ g.xHi + tol * rabs g.A.a ∧
+    g.yLo - tol * rabs g.A.e ≤ p.2 ∧ p.2 ≤ g.yHi + tol * rabs g.A.e := by
+  obtain ⟨h1, h2, h3, h4⟩ := hin
+  obtain ⟨c1, c2, c3, c4, _, _⟩ :=
+    out_contains_bbox_up_to_tol c mode tight anchor tol rnd g ht (by linarith) (by linarith) h
+  refine ⟨by linarith, by linarith, by linarith, by linarith⟩
+
+/-- **utm_hemisphere** — for the WGS 84 UTM CRS of zone `z` found for the raster (EPSG `326zz`
+north, `327zz` south): `utm` keeps it, `utm-n` resolves to `326zz`, `utm-s` to `327zz` — same zone,
+requested hemisphere. -/
+theorem utm_hemisphere (z : Int) (south : Bool) (_hz : 1 ≤ z ∧ z ≤ 60) :
+    let epsg := (if south then 32700 else 32600) + z
+    normUtm .utm epsg south = epsg ∧ normUtm .utmN epsg south = 32600 + z ∧
+      normUtm .utmS epsg south = 32700 + z := by
+  cases south <;> simp [normUtm] <;> omega
+
+/-- **pick_best_is_max_overlap** — among several candidates (non-degenerate polygon) the chosen
+CRS has the maximal overlap with the raster's polygon; with one candidate or a point-like polygon
+the first candidate is returned; no candidate is an error. -/
+theorem pick_best_is_max_overlap (cands : List (Nat × Rat)) (big : Bool) (r : Nat)
+    (h : pickBest cands big = .ok r) :
+    ∃ v, (r, v) ∈ cands ∧
+      ((2 ≤ cands.length ∧ big = true) → ∀ x ∈ cands, x.2 ≤ v) ∧
+      (¬ (2 ≤ cands.length ∧ big = true) → cands.head? = some (r, v)) := by
+  cases cands with
+  | nil => simp [pickBest] at h
+  | cons first rest =>
+    simp only [pickBest] at h
+    split at h
+    · rename_i hc
+      have hlen : 2 ≤ (first :: rest).length := by
+        cases rest with
+        | nil => exact absurd rfl hc.1
+        | cons _ _ => simp
+      cases ha : argmaxFirst (first :: rest) with
+      | none =>
+        simp [argmaxFirst] at ha
+        cases h' : argmaxFirst rest <;> simp [h'] at ha
+        split at ha <;> cases ha
+      | some cmax =>
+        rw [ha] at h
+        simp only [Except.ok.injEq] at h
+        obtain ⟨hm, hmax⟩ := argmaxFirst_spec _ _ ha
+        refine ⟨cmax.2, ?_, fun _ => hmax, fun hn => absurd ⟨hlen, hc.2⟩ hn⟩
+        rw [← h]
+        exact hm
+    · rename_i hc
+      simp only [Except.ok.injEq] at h
+      refine ⟨first.2, ?_, ?_, ?_⟩
+      · rw [← h]; exact List.mem_cons_self
+      · intro hh
+        exfalso
+        apply hc
+        refine ⟨?_, hh.2⟩
+        intro hr
+        subst hr
+        simp at hh
+      · intro _
+        rw [← h]
+        rfl
 
 end OdcGeo.C11
